@@ -52,7 +52,9 @@ def gens(rng):
         return timezone(timedelta(minutes=rng.choice([-720, -330, -90, -1, 1, 30, 60, 345, 840, rng.randint(-1439, 1439)])))
     return {
         "int": lambda: rng.choice([0, 1, -1, 2 ** 31, -2 ** 40, 10 ** 15, 9007199254740991, rng.randint(-10 ** 9, 10 ** 9)]),
-        "float": lambda: rng.choice([0.0, -0.0, 1.5, -2.25, 1e-7, 1e21, 3.141592653589793, float(2 ** 53), 1e300, 5e-324, rng.uniform(-1e6, 1e6)]),
+        # infinities are in the domain ("float except NaN"); they are written as the token Infinity: listed finding C14-float-infinity
+        "float": lambda: rng.choice([0.0, -0.0, 1.5, -2.25, 1e-7, 1e21, 3.141592653589793, float(2 ** 53), 1e300, 5e-324, rng.uniform(-1e6, 1e6)]
+                                    + ([float("inf"), float("-inf")] if rng.random() < 0.3 else [])),
         "str": lambda: rng.choice(["", "a", "h\u00e9llo", "\u4e2d\u6587", 'with "quote"', "line\nbreak", "\\back", "\u2028", "tab\t"]),
         "bool": lambda: rng.choice([True, False]),
         "bytes": lambda: rng.choice([b"", b"abc", "\u00e9".encode(), b'{"a":1}']),
@@ -130,12 +132,28 @@ def roundtrip_oracle(i_seed):
             txt = json.dumps(inst, cls=JSONEncoder)
         except Exception as e:
             return "encoding failed (%s: %s) for %r of\n%s" % (type(e).__name__, e, dict(inst), src)
+        def has_inf(x):
+            if isinstance(x, float):
+                return x in (float("inf"), float("-inf"))
+            if isinstance(x, dict):
+                return any(has_inf(y) for y in x.values())
+            if isinstance(x, (list, tuple, set)):
+                return any(has_inf(y) for y in x)
+            return False
         try:
             def bad_const(c):
                 raise ValueError(c)
             json.loads(txt, parse_constant=bad_const)
         except Exception as e:
-            return "not standard JSON (%s): %s" % (e, txt[:300])
+            # exactly the listed finding: an infinite float of the instance written as [-]Infinity; the rest of the text must be
+            # standard (checked with those tokens replaced) and the round trip is still required below
+            if has_inf(dict(inst)) and str(e) in ("Infinity", "-Infinity"):
+                try:
+                    json.loads(re.sub(r"-?Infinity", "0", txt), parse_constant=bad_const)
+                except Exception as e2:
+                    return "not standard JSON (%s): %s" % (e2, txt[:300])
+            else:
+                return "not standard JSON (%s): %s" % (e, txt[:300])
         try:
             back = K.__from__(txt)
         except Exception as e:
@@ -248,6 +266,13 @@ def finding_dataclass_not_encodable():
         return True
 
 
+def finding_float_infinity():
+    from utype.utils.encode import JSONEncoder
+    dyn.declare("class KfInf(Schema):\n    f: float\n")
+    K = dyn.get("KfInf")
+    return "Infinity" in json.dumps(K(f=float("inf")), cls=JSONEncoder)
+
+
 def finding_decimal_underflow():
     from utype.utils.encode import JSONEncoder
     dyn.declare("class KfDe(Schema):\n    d: Decimal\n")
@@ -265,7 +290,8 @@ def main(tier, seed):
     res = core.Result(PID, tier, seed)
     core.prove(res, PID)
     findings.replay_all(res, PID, {"C14-dataclass-not-encodable": finding_dataclass_not_encodable,
-                                   "C14-decimal-underflow": finding_decimal_underflow})
+                                   "C14-decimal-underflow": finding_decimal_underflow,
+                                   "C14-float-infinity": finding_float_infinity})
     rng = random.Random(seed * 151 + 14)
     if core.build(["Model/Temporal.vo", "Model/Validators.vo"])["ok"]:
         temporal_suite(res, rng, 1200 if tier == "quick" else 20000)
